@@ -6,6 +6,7 @@ import (
 	"context"
 	"encoding/hex"
 	"fmt"
+	"math/big"
 	"sort"
 	"strings"
 	"testing"
@@ -20,6 +21,7 @@ import (
 	"pgregory.net/rapid"
 	"verifharness/ev"
 	"verifharness/guard"
+	"verifharness/ref"
 	"verifharness/sim"
 )
 
@@ -103,7 +105,42 @@ func pickBiased(t *rapid.T, label string, xs []string, nValid int) string {
 
 var amountPool = []string{"0.001", "0.5", "1", "2.5", "0.0001", "10", "0", "0.00000001", "123.456", "1000000", "206438400", "206438401", "", ".", "+5", "-1", "1e3", "abc", "0.000000001", "1.", ".1", " 1", "99999999999999999999", "0x10", "1,5"}
 
+// stateAmounts derives amount strings from what the selected wallet holds right now: its spendable
+// balance, its total and single coin values, each minus 0..4 times the minimum relay fee (the amounts
+// at which the change of an automatic selection is zero, dust, or exactly the minimum).
+func (a *apiCtx) stateAmounts() []string {
+	var base []int64
+	if wb, err := a.w.env.W.WalletBalance(1, true); err == nil {
+		base = append(base, amt(wb.Spendable), amt(wb.Total))
+	}
+	if utx, err := a.w.env.W.GetUtxo(nil); err == nil {
+		n := 0
+		for _, list := range utx {
+			for _, u := range list {
+				if n < 3 {
+					base = append(base, amt(u.Amount))
+					n++
+				}
+			}
+		}
+	}
+	var out []string
+	for _, b := range base {
+		for k := int64(0); k <= 4; k++ {
+			if v := b - k*10000; v > 0 {
+				out = append(out, ref.FormatAmount(big.NewInt(v)))
+			}
+		}
+	}
+	return out
+}
+
 func (a *apiCtx) genAmounts(t *rapid.T, addrs []string) map[string]string {
+	if rapid.IntRange(0, 4).Draw(t, "stateAmount") == 0 {
+		if sa := a.stateAmounts(); len(sa) > 0 && len(addrs) > 0 {
+			return map[string]string{pickBiased(t, "amtAddr", addrs, a.nValidAddr): sa[rapid.IntRange(0, len(sa)-1).Draw(t, "stateAmt")]}
+		}
+	}
 	n := rapid.IntRange(0, 3).Draw(t, "nAmounts")
 	m := map[string]string{}
 	for i := 0; i < n; i++ {
